@@ -392,7 +392,7 @@ pub fn run_property(prop: &dyn Property, args: &RunArgs) -> std::io::Result<()> 
         let lo = base;
         let hi = base + st.count;
         base = hi;
-        if args.start >= hi || args.skip_streams.iter().any(|p| st.name.starts_with(p.as_str())) {
+        if args.start >= hi || args.skip_streams.iter().any(|p| st.name.contains(p.as_str())) {
             continue;
         }
         // first g >= max(lo, start) with g % nshards == shard
